@@ -49,6 +49,10 @@ pub struct SchedProg {
     pub trigs: Vec<Trig>,
     /// dsp returns `acc` (true) or `(acc, cnt, now)` (false)
     pub mono: bool,
+    /// number of boxed list values allocated by `main` before any task closure exists (shifts the
+    /// numbering of heap objects relative to closures; no effect on the schedule)
+    #[serde(default)]
+    pub boxed_prelude: u32,
 }
 
 #[derive(Clone, Debug, Serialize, Deserialize, PartialEq)]
@@ -72,6 +76,12 @@ impl SchedProg {
     pub fn render(&self) -> String {
         let mut s = String::new();
         s.push_str("let acc = 0.0\nlet cnt = 0.0\n");
+        if self.boxed_prelude > 0 {
+            s.push_str("type rec VList = VNil | VCons(float, VList)\n");
+            for b in 0..self.boxed_prelude {
+                s.push_str(&format!("let vl{b} = VCons({}.0, VCons(2.0, VNil))\n", b + 1));
+            }
+        }
         s.push_str("fn nop(){\n  acc = acc + 0.0\n}\n");
         if self.tasks.iter().any(|t| t.closure) {
             s.push_str("fn mkc(w){\n  | | {\n    acc = acc + w\n    cnt = cnt + 1.0\n  }\n}\n");
@@ -574,7 +584,8 @@ pub fn gen_c11(seed: u64) -> SchedScenario {
             }
         }
     }
-    let prog = SchedProg { tasks, initials, trigs, mono };
+    let boxed_prelude = if r_cfg.chance(1, 3) { r_cfg.range(1, 3) as u32 } else { 0 };
+    let prog = SchedProg { tasks, initials, trigs, mono, boxed_prelude };
     let total = fit_budget(&prog, total, 40_000, 1_500);
     SchedScenario {
         prop: "C11".into(),
@@ -758,6 +769,7 @@ pub fn model_selftest() -> Result<(), String> {
         initials: vec![(0, 1.0), (1, 4.0), (2, 2.5), (3, 5.0)],
         trigs: vec![Trig::Once { at: 6, target: 1, delay: 1.0 }],
         mono: false,
+        boxed_prelude: 0,
     };
     let mut m = Model::new(&prog);
     let expect = [
